@@ -32,3 +32,12 @@ func VerifDTLSRoleFromSDP(d *sdp.SessionDescription) DTLSRole {
 func VerifConnectionRoleFromDTLSRole(r DTLSRole) sdp.ConnectionRole {
 	return connectionRoleFromDtlsRole(r)
 }
+
+// VerifDTLSRoleLive returns DTLSTransport.role() of this connection's DTLS
+// transport as it stands (after Start: the role the handshake was run with).
+func (pc *PeerConnection) VerifDTLSRoleLive() DTLSRole {
+	pc.dtlsTransport.lock.RLock()
+	defer pc.dtlsTransport.lock.RUnlock()
+
+	return pc.dtlsTransport.role()
+}
